@@ -157,6 +157,14 @@ var zzTruthPositions = []string{
 	"if (X ? false : true) { return 0; } return 1;",
 	"n = 0; while (X ? n < 1 : false) { n = n + 1; } return n;",
 	"return (X ? false : true) ? 0 : 1;",
+	// an even number of `!` as the whole condition: `!` of anything but false
+	// and null is false, so `!!v` is true for every other value - also for the
+	// falsy ones (0, "", [])
+	"if (!!X) { return 1; } return 0;",
+	"return !!X ? 1 : 0;",
+	"n = 0; while (!!X) { return 1; } return 0;",
+	"if (!!!X) { return 0; } return 1;",
+	"y = !!X; if (y) { return 1; } return 0;",
 }
 
 func zzSubst(tmpl, expr string) string {
@@ -204,6 +212,10 @@ func ZZ_C05_Positions(sv *zzsv.T) {
 	if pos > 7 && pos < 12 {
 		// positions that consume !v: true for false and null only
 		want = val.t == tNull || (val.t == tBool && !val.b)
+	}
+	if pos >= 16 {
+		// positions that consume !!v (or return 1 unless !!!v)
+		want = !(val.t == tNull || (val.t == tBool && !val.b))
 	}
 	w := int64(0)
 	if want {
